@@ -5,6 +5,7 @@ package xmaps
 //verif:case C19 thorough VerifSetAlgebra 0..1 0..2 2
 //verif:case C19 thorough VerifSetAlgebra 2 0..1 2
 //verif:case C19 thorough VerifSetAlgebra 3 0..1 0..1
+//verif:case C19 quick VerifSetAlgebraNil 1..7 0..2 0..1
 //verif:case C19 quick VerifMapHelpers 0..3
 //verif:case C19 quick VerifSetMethods 0..3
 
@@ -165,4 +166,49 @@ func VerifSetMethods(n int) {
 	}
 	vAssert(len(s) == cnt, "set/len")
 	vCover("set-methods")
+}
+
+// VerifSetAlgebraNil: a nil set (the zero value of Set, e.g. an accumulator that was never made)
+// is an empty set in every argument position: no panic, and the same answers as for an empty set.
+// args: nilMask (bit i: argument i is a nil map), elements of the other arguments
+func VerifSetAlgebraNil(nilMask int, la, lb int) {
+	srcs := [3][]int{vDomSlice(la, "a"), vDomSlice(lb, "b"), vDomSlice(la, "c")}
+	var sets [3]Set[int]
+	for i := range sets {
+		if nilMask&(1<<i) != 0 {
+			srcs[i] = nil
+			sets[i] = nil
+		} else {
+			sets[i] = SetFromSlice(srcs[i])
+		}
+	}
+	A, B, C := sets[0], sets[1], sets[2]
+	var u, i3, d Set[int]
+	var any3 bool
+	p := vTry(func() {
+		u = Union(A, B, C)
+		i3 = Intersection(A, B, C)
+		d = Difference(A, B)
+		any3 = Intersects(A, B, C)
+	})
+	vAssert(!p, "setalgebra/nil-set-is-an-empty-set-no-panic")
+	if p {
+		return
+	}
+	anyInter := false
+	for k := 0; k <= 2; k++ {
+		inA, inB, inC := vIn(srcs[0], k), vIn(srcs[1], k), vIn(srcs[2], k)
+		vAssert(u.Contains(k) == vOr(inA, vOr(inB, inC)), "union/membership")
+		vAssert(i3.Contains(k) == vAnd(inA, vAnd(inB, inC)), "intersection3/membership")
+		vAssert(d.Contains(k) == vAnd(inA, !inB), "difference/membership")
+		anyInter = vOr(anyInter, vAnd(inA, vAnd(inB, inC)))
+	}
+	vAssert(any3 == anyInter, "intersects/agrees-with-intersection")
+	// the result of Union belongs to the caller: adding to it must work and must not reach an argument
+	p2 := vTry(func() { u.Add(7) })
+	vAssert(!p2, "union/result-is-a-usable-set")
+	for i := range sets {
+		vAssert(!sets[i].Contains(7), "union/result-does-not-alias-an-argument")
+	}
+	vCover("set-algebra-nil")
 }
